@@ -255,6 +255,7 @@ Inductive mutator := MAppend | MPop | MClear | MReverse | MExtend | MInsert | MD
 Inductive stmt :=
 | SAssign (x : nat) (e : expr)
 | SCall (ret : option nat) (params : list (ty * bool)) (rty : ty) (args : list expr)
+| SOpaque (borrows : bool) (args : list expr)     (* barrier(..) = true; panic(msg, ..) / exit(msg, sig, ..) = false *)
 | SSetIdx (e : expr) (i : nat) (v : expr)
 | SSetFld (e : expr) (f : nat) (v : expr)
 | SMut (e : expr) (m : mutator) (v : expr)
@@ -296,11 +297,16 @@ Definition eval := eval_f 12.
 Definition eval_all (en : env) := map_m (eval en).
 Definition from_py_all (sd : sdefs) := map_m (from_py 8 sd).
 
-(** trace_call for a declared function *)
-Definition call_fn (sd : sdefs) (params : list (ty * bool)) (rty : ty) (args : list val) (ts : tst) : res (val * tst) :=
+(** trace_call.  `mk_params` gives (type, borrowed) per argument: the declared signature for
+    ordinary callees (and for the variant an overloaded function resolves to); for callees
+    without a signature of their own (barrier / panic / exit) every argument is accepted at its
+    own type and is borrowed (barrier) or consumed (panic, exit) according to the checked call. *)
+Definition call_gen (sd : sdefs) (mk_params : list ty -> list (ty * bool)) (rty : ty) (args : list val) (ts : tst)
+  : res (val * tst) :=
   r <- from_py_all sd args ts ;;
   ts1 <- use_all (fst r) (snd r) ;;
   tys <- tys_of (fst r) ts1 ;;
+  let params := mk_params tys in
   if negb (Nat.eqb (length tys) (length params)) then Err EStuck else
   if negb (forallb (fun p => ty_eqb (fst p) (fst (snd p))) (combine tys params)) then Err EType else
   ts2 <- iter_i (fun _ (a : val * (ty * (ty * bool))) ts =>
@@ -310,6 +316,8 @@ Definition call_fn (sd : sdefs) (params : list (ty * bool)) (rty : ty) (args : l
            else Ok ts) 0 (combine args (combine tys params)) ts1 ;;
   let '(rid, ts3) := create_t sd rty ts2 in
   unpack 8 sd rid false ts3.
+Definition call_fn (sd : sdefs) (params : list (ty * bool)) := call_gen sd (fun _ => params).
+Definition call_opaque (sd : sdefs) (borrows : bool) := call_gen sd (map (fun t => (t, borrows))) TNone.
 
 Definition mutate (m : mutator) (cur : list val) (v : val) : res (list val) :=
   match m with
@@ -331,6 +339,10 @@ Definition exec (sd : sdefs) (s : stmt) (en : env) (ts : tst) : res (env * tst *
     r <- eval_all en args ts ;;
     r2 <- call_fn sd params rty (fst r) (snd r) ;;
     Ok (match ret with Some x => updm en x (fst r2) | None => en end, snd r2, None)
+  | SOpaque borrows args =>
+    r <- eval_all en args ts ;;
+    r2 <- call_opaque sd borrows (fst r) (snd r) ;;
+    Ok (en, snd r2, None)
   | SSetIdx e i v =>
     rv <- eval en v ts ;; r <- eval en e (snd rv) ;;
     match fst r with
